@@ -463,7 +463,9 @@ class Explorer:
             # seen before in this check: count it, spend nothing more on it
             self.ctx.violation(p["kind"], p["sig"], p["msg"], replay)
             return
-        if "STEP-LIMIT" in p["sig"] and r.get("spec") and self.stats.get("step_limit_reruns", 0) < 6:
+        # (the allowance bounds the cost of runs that really never end; a re-run that ends with the larger budget does not use it up —
+        # with some seeds a dozen slow-but-fine runs of the `delay` class come before anything else)
+        if "STEP-LIMIT" in p["sig"] and r.get("spec") and self.stats.get("step_limit_reruns_that_did_not_end", 0) < 6 and self.stats.get("step_limit_reruns", 0) < 200:
             self.stats["step_limit_reruns"] = self.stats.get("step_limit_reruns", 0) + 1
             # the step limit is a budget, not a verdict: a run that is slow in scheduler steps (write delays, long sleeps under an
             # unlucky schedule) but still moving is given eight times the budget before it is called a hang
@@ -473,6 +475,7 @@ class Explorer:
             if res8 and res8[0]["end"] and res8[0]["end"].startswith("ok") and not res8[0]["oracle"]:
                 self.stats["slow_runs_completed_with_a_larger_step_budget"] = self.stats.get("slow_runs_completed_with_a_larger_step_budget", 0) + 1
                 return
+            self.stats["step_limit_reruns_that_did_not_end"] = self.stats.get("step_limit_reruns_that_did_not_end", 0) + 1
         if p["sig"] not in self.reported:
             self.reported.add(p["sig"])
             small = self.shrink(sc, p)
